@@ -72,6 +72,7 @@ func contains(ss []string, x string) bool {
 
 func runC13(w *W) {
 	perturbCache = true
+	walkLunar = true
 	var pFu *calendar.Fu
 	var pShu *calendar.ShuJiu
 	sweepDays(w, "C13", func(d *Day, prev *Day) {
@@ -88,6 +89,8 @@ func runC13(w *W) {
 		times := []hms{{12, 0, 0}}
 		if onTerm {
 			times = append(times, hms{0, 0, 0}, hms{23, 59, 59})
+		} else if d.J%4 == 3 {
+			times = append(times, hms{0, 0, 0}) // the moment at which lunarP hands out the sweep's walking object
 		}
 		for ti, t := range times {
 			l := lunarP(d.At(t.h, t.m, t.s), d.J)
